@@ -32,6 +32,7 @@ type gTok struct {
 	method   string
 	used     bool
 	issuedAt int64
+	scopes   []string // requested scopes of the grant
 }
 
 type gen struct {
@@ -185,8 +186,31 @@ func (g *gen) next() HOp {
 		if r.Chance(35) {
 			op.Aud = g.subset(audPool, 40)
 		}
+		op.GAud = append([]string{}, op.Aud...)
+		if r.Chance(20) && len(op.GAud) > 0 {
+			op.GAud = op.GAud[1:]
+		}
+		if r.Chance(12) {
+			// the integrator grants an audience that was not requested
+			if x := Pick(r, audPool); !strings.Contains(" "+strings.Join(op.GAud, " ")+" ", " "+x+" ") {
+				op.GAud = append(op.GAud, x)
+			}
+		}
 		if r.Chance(p.PKCE) {
 			v := g.verifierFor(0)
+			if r.Chance(15) {
+				// a challenge derived from a verifier that is not well-formed: must never be redeemable
+				switch r.Intn(3) {
+				case 0:
+					bad := Pick(r, []string{"!", "[", "\\", "]", "^", "`", "@", "/", "+", "=", " ", "*"})
+					k := r.Intn(len(v))
+					v = v[:k] + bad + v[k+1:]
+				case 1:
+					v = v[:42]
+				case 2:
+					v = v + strings.Repeat("x", 129-len(v))
+				}
+			}
 			switch r.Intn(10) {
 			case 0, 1, 2, 3, 4:
 				op.Challenge, op.Method = s256(v), "S256"
@@ -195,7 +219,7 @@ func (g *gen) next() HOp {
 			case 7:
 				op.Challenge, op.Method = v, ""
 			case 8:
-				op.Challenge, op.Method = s256(v), "S512"
+				op.Challenge, op.Method = s256(v), Pick(r, []string{"S512", "s256", "S256 ", "PLAIN", "Plain", "none"})
 			case 9:
 				op.Challenge, op.Method = "", "S256"
 			}
@@ -233,7 +257,9 @@ func (g *gen) next() HOp {
 				case 2:
 					op.Verifier = t.verifier[:20]
 				case 3:
-					op.Verifier = t.verifier[:42] + "!"
+					bad := Pick(r, []string{"!", "[", "\\", "]", "^", "`", "@", "/", "+", "=", " ", "%", "*", "\x7f", "\xc3\xa9"})
+					k := r.Intn(len(t.verifier))
+					op.Verifier = t.verifier[:k] + bad + t.verifier[k+1:]
 				case 4:
 					op.Verifier = s256(t.verifier)
 				case 5:
@@ -291,9 +317,17 @@ func (g *gen) next() HOp {
 	case pick(p.WIntrospect):
 		kind := Pick(r, []string{"access", "refresh"})
 		i := g.pickTok(kind, nil)
-		op := HOp{Kind: "introspect", Tok: HTok{Ref: i, Tamper: r.Chance(20)}, Hint: Pick(r, []string{"access_token", "refresh_token", "other", ""})}
-		if r.Chance(50) {
-			op.Scopes = g.subset([]string{"photos", "users.read", "offline", "", "users", "a.b.c.d"}, 30)
+		op := HOp{Kind: "introspect", Tok: HTok{Ref: i, Tamper: r.Chance(15)}, Hint: Pick(r, []string{"access_token", "refresh_token", "other", ""})}
+		if r.Chance(65) {
+			if i >= 0 && len(g.toks[i].scopes) > 0 && r.Chance(70) {
+				// scopes the grant asked for (granted or not)
+				op.Scopes = g.subset(g.toks[i].scopes, 50)
+				if len(op.Scopes) == 0 {
+					op.Scopes = []string{g.toks[i].scopes[len(g.toks[i].scopes)-1]}
+				}
+			} else {
+				op.Scopes = g.subset([]string{"photos", "users.read", "offline", "", "users", "a.b.c.d"}, 30)
+			}
 		}
 		return op
 	case pick(p.WAdvance):
@@ -370,14 +404,14 @@ func genHistory(t *testing.T, r *RNG, p *Profile) (*HHistory, []HObs) {
 			switch op.Kind {
 			case "authorize":
 				if len(o.Minted) == 1 {
-					g.toks = append(g.toks, gTok{kind: "code", client: op.Client, family: len(g.toks), redirect: op.Redirect, verifier: verifier, method: op.Method, issuedAt: g.now})
+					g.toks = append(g.toks, gTok{kind: "code", client: op.Client, family: len(g.toks), redirect: op.Redirect, verifier: verifier, method: op.Method, issuedAt: g.now, scopes: op.Scopes})
 				}
 			case "redeem", "refresh":
 				if o.Err == "" && op.Tok.Ref >= 0 {
 					g.toks[op.Tok.Ref].used = true
 					src := g.toks[op.Tok.Ref]
 					for _, m := range o.Minted {
-						g.toks = append(g.toks, gTok{kind: m, client: src.client, family: src.family, issuedAt: g.now})
+						g.toks = append(g.toks, gTok{kind: m, client: src.client, family: src.family, issuedAt: g.now, scopes: src.scopes})
 					}
 				}
 			case "advance":
